@@ -9,7 +9,7 @@
 //       vo::CheckClosedManifold (key prefix `accepted-but-broken:`).
 //
 // Site labels (crash attribution, part of the key):
-//   mesh:<mutation kind>/<entry variant>     poly:<kind>/<entry>
+//   mesh:<field>/<kind>/<variant> (merge:... for MeshGL::Merge)   poly:<kind>/<entry>
 //   pts:<kind>/<entry>   obj:<kind>/<entry>  arg:<Op>.<arg>=<class>
 //   sticky:<op>   consume:<kind>/<op>
 // The variable part is always LAST so that a known finding may prefix-match.
@@ -285,6 +285,7 @@ void addBase(vh::Ctx& c, const std::string& name, const Manifold& m) {
       !vo::CheckClosedManifold(b.m64).ok)
     c.inconclusive("base mesh '" + name + "' is not a valid round-trippable export");
   g_bases.push_back(std::move(b));
+  c.heartbeat();
 }
 
 void buildBases(vh::Ctx& c) {
@@ -559,6 +560,7 @@ template <class M>
 void runMeshVariant(vh::Ctx& c, vh::Rng& r, M m, const std::string& kind, int variant, const std::string& baseName,
                     std::vector<Smoothness> sharp) {
   std::string label = meshLabel(kind) + "/" + kMeshVariants[variant];
+  if (variant >= 8) label = "merge" + label.substr(4);  // MeshGL::Merge() is an entry point of its own: "merge:<field>/<kind>/merge64"
   std::string detail = vh::J().s("base", baseName).s("kind", kind).s("variant", kMeshVariants[variant]).raw("mesh", meshJson(m))
                            .u("nSharpened", sharp.size()).str();
   Obs o{c, r, label, detail};
@@ -629,6 +631,7 @@ void meshMutant(vh::Ctx& c, vh::Rng r, std::vector<Deferred>& hot) {
       else runMeshVariant(c, rr, m32, lab, variant, name, sharp);
     };
     std::string label = meshLabel(lab) + "/" + kMeshVariants[variant];
+    if (variant >= 8) label = "merge" + label.substr(4);
     if (isHot(label)) { hot.push_back({label, run}); return; }
     run();
     return;
@@ -1172,10 +1175,12 @@ void vh_init(vh::Ctx& c) {
   }
   // only what this stage needs: a crashing mutant costs a process restart
   const std::string mode = c.param("mode", "mesh");
+  c.heartbeat();  // the watchdog also covers start-up; on a loaded machine that is not instantaneous
   if (mode == "mesh") buildBases(c);
   else if (mode == "poly") buildObjBases(c);
   else buildArgOps();
   (void)partner();
+  c.heartbeat();
 }
 
 void vh_case(vh::Ctx& c) {
